@@ -93,7 +93,9 @@ func checkHeader(c *mon.C, h ref.Header, planIdx int) {
 
 	// streaming decoder (validity checks off: only the parser is observed)
 	ch = xport.NewChunker(stream, plan)
-	rd := &wsutil.Reader{Source: ch, SkipHeaderCheck: true}
+	// (with the validity checks off the parser does not depend on the endpoint's side either: every header is
+	// decoded under the zero state, as a server, as a client and as a server with an extension negotiated)
+	rd := &wsutil.Reader{Source: ch, SkipHeaderCheck: true, State: parserStates[(planIdx+int(h.Length%7)+int(h.Rsv))%len(parserStates)]}
 	got, err = rd.NextFrame()
 	if err != nil {
 		c.Fail("decode/stream/error/len"+lenForm(h.Length), "Reader.NextFrame failed on a complete minimal header: "+err.Error(), det(map[string]interface{}{"plan": plan.String()}))
@@ -126,6 +128,8 @@ func checkHeader(c *mon.C, h ref.Header, planIdx int) {
 	}
 	c.Class(hdrKey(h) + " plan=" + plan.String())
 }
+
+var parserStates = []ws.State{0, ws.StateServerSide, ws.StateClientSide, ws.StateServerSide | ws.StateExtended, ws.StateClientSide | ws.StateExtended}
 
 type readerOnly struct{ r io.Reader }
 
@@ -233,7 +237,7 @@ func decodeBoth(c *mon.C, b []byte, plan xport.Plan, origin string) {
 	c1 := xport.NewChunker(stream, plan)
 	h1, e1 := ws.ReadHeader(c1)
 	c2 := xport.NewChunker(stream, plan)
-	rd := &wsutil.Reader{Source: c2, SkipHeaderCheck: true}
+	rd := &wsutil.Reader{Source: c2, SkipHeaderCheck: true, State: parserStates[len(b)%len(parserStates)]}
 	h2, e2 := rd.NextFrame()
 	cls := fmt.Sprintf("%s b1=%02x", st, 0)
 	if len(b) >= 2 {
